@@ -133,7 +133,7 @@ def quantize(d, q, rounding=None, context=None):
     if rounding is not None and rounding != decimal.ROUND_HALF_EVEN:
         raise Unsupported("quantize rounding mode")
     if not isinstance(d, SymDec):
-        return d.quantize(q)
+        return d.quantize(q.neg and None if False else q) if not isinstance(q, SymDec) else _quantize_conc(d, q)
     if d.exp >= qexp:
         k = d.exp - qexp
         coef = d.coef * (10 ** k)
@@ -152,7 +152,13 @@ def quantize(d, q, rounding=None, context=None):
     return SymDec(d.neg, coef, qexp)
 
 
+def _quantize_conc(d, q):
+    raise Unsupported("concrete Decimal quantized to symbolic quantum")
+
+
 def same_quantum(d, o):
+    if not isinstance(d, SymDec) and not isinstance(o, SymDec):
+        return d.same_quantum(o)
     de = d.exp if isinstance(d, SymDec) else (d.as_tuple().exponent if d.is_finite() else None)
     oe = o.exp if isinstance(o, SymDec) else (o.as_tuple().exponent if o.is_finite() else None)
     if de is None or oe is None:
@@ -199,6 +205,9 @@ def to_fixed(d):
     nd = _ndigits(d.coef)
     digs = rt.digits_of(d.coef, nd)
     if d.exp >= 0:
+        # rescaled to exponent 0 first: the integer coef * 10^exp (a zero coefficient stays a single '0')
+        if d.exp > 0 and decide(d.coef == 0):
+            return mkstr(sign + ['0'])
         return mkstr(sign + digs + ['0'] * d.exp)
     dotplace = d.exp + nd
     if dotplace <= 0:
